@@ -401,6 +401,39 @@ def sha(obj):
     return hashlib.sha1(json.dumps(obj, sort_keys=True, default=str).encode()).hexdigest()[:12]
 
 
+FINGERPRINTS = os.path.join(VERIF, "tools", "data", "fingerprints.json")
+
+
+def anchor_files(prop):
+    for l in open(os.path.join(VERIF, "properties.jsonl")):
+        p = json.loads(l)
+        if p["id"] == prop:
+            return p["anchors"]["files"]
+    return []
+
+
+def source_hashes(prop):
+    out = {}
+    for f in anchor_files(prop):
+        try:
+            out[f] = hashlib.sha1(open(os.path.join(REPO, f), "rb").read()).hexdigest()[:16]
+        except OSError:
+            out[f] = "missing"
+    return out
+
+
+def changed_sources(prop):
+    """Anchor files of the property whose content differs from the snapshot against which the
+    hand-written model was last validated (tools/data/fingerprints.json).  Not a violation by
+    itself: checks use it to enlarge the search and it is written into the evidence."""
+    try:
+        ref = json.load(open(FINGERPRINTS)).get(prop, {})
+    except (OSError, ValueError):
+        return []
+    now = source_hashes(prop)
+    return sorted(f for f in now if ref.get(f) not in (None, now[f]))
+
+
 class Check:
     """One run of one property's check."""
 
@@ -417,6 +450,9 @@ class Check:
         self.assumptions = []
         self.proof = None
         self.notes = []
+        self.changed = changed_sources(prop)
+        if self.changed:
+            self.notes.append("modelled sources changed since the model was last validated: " + ", ".join(self.changed))
 
     # -- counters ---------------------------------------------------------------------------
     def count(self, case_key, nontrivial=True):
@@ -509,6 +545,7 @@ class Check:
         cov["theorems"] = {k.split(".")[-1]: v for k, v in thms.items()}
         cov["known_findings_seen"] = [k["id"] for k in self.known_seen]
         cov["notes"] = self.notes
+        cov["modelled_sources_changed"] = self.changed
         if self.proof and not proof_ok and not any(v[0] == "impl" for v in self.violations):
             self.unproved("theorem-no-longer-checks", {
                 "theorem_module": self.proof["module"], "lean_error": self.proof.get("lean_error"),
